@@ -194,6 +194,7 @@ class HostInterp:
         self.subtler = subtler_token
         self.globals_env = globals_env or {}
         self.host_types = (list, str, tuple, set, dict)  # host objects whose public methods interpreted code may call
+        self.record_fields = {}  # class name -> field names, for dataclass-like classes without an __init__
         self.steps = 0
 
     # ------------------------------------------------------------------ entry
@@ -279,6 +280,15 @@ class HostInterp:
                 return
             self.bind(st.target, cur + v if isinstance(st.op, ast.Add) else cur - v, env)
             return
+        if isinstance(st, ast.AugAssign) and isinstance(st.op, (ast.BitAnd, ast.BitOr)):
+            tgt = ast.copy_location(type(st.target)(**{f: getattr(st.target, f) for f in st.target._fields if f != "ctx"}, ctx=ast.Load()), st.target)
+            cur = self.ev(tgt, env)
+            v = self.ev(st.value, env)
+            try:
+                self.bind(st.target, (cur & v) if isinstance(st.op, ast.BitAnd) else (cur | v), env)
+            except TypeError as ex:
+                raise AnalysisError(f"interpretation: unsupported in-place operation: {ex}")
+            return
         if isinstance(st, ast.Expr):
             if isinstance(st.value, ast.Constant):
                 return
@@ -336,6 +346,19 @@ class HostInterp:
             try:
                 try:
                     self.block(st.body, env)
+                except (KeyError, IndexError, AttributeError, TypeError, ValueError, StopIteration) as hx:
+                    # an exception of the host data structures the interpreted code works on
+                    handled = False
+                    for h in st.handlers:
+                        names = []
+                        if h.type is not None:
+                            names = [dotted(t) for t in (h.type.elts if isinstance(h.type, ast.Tuple) else [h.type])]
+                        if h.type is None or type(hx).__name__ in names or "Exception" in names or "BaseException" in names or ("LookupError" in names and isinstance(hx, LookupError)):
+                            self.block(h.body, env)
+                            handled = True
+                            break
+                    if not handled:
+                        raise
                 except Raised as r:
                     handled = False
                     for h in st.handlers:
@@ -355,6 +378,16 @@ class HostInterp:
                     self.block(st.orelse, env)
             finally:
                 self.block(st.finalbody, env)
+            return
+        if isinstance(st, ast.Delete):
+            for t in st.targets:
+                if isinstance(t, ast.Subscript):
+                    obj = self.ev(t.value, env)
+                    del obj[self.ev(t.slice, env)]
+                elif isinstance(t, ast.Name):
+                    env.pop(t.id, None)
+                else:
+                    raise AnalysisError("interpretation: unsupported del target")
             return
         if isinstance(st, (ast.Pass, ast.Assert, ast.Import, ast.ImportFrom, ast.Nonlocal, ast.Global)):
             return
@@ -430,6 +463,8 @@ class HostInterp:
             obj = self.ev(e.value, env)
             if obj is ast:
                 return getattr(ast, e.attr)
+            if isinstance(obj, tuple) and len(obj) == 2 and obj[0] == "class" and obj[1] in self.classes and e.attr in self.classes[obj[1]]:
+                return Closure(self.classes[obj[1]][e.attr], {})
             if isinstance(obj, Instance):
                 if e.attr in obj.__dict__:
                     return obj.__dict__[e.attr]
@@ -521,7 +556,7 @@ class HostInterp:
             return self.ev(e.body if self.ev(e.test, env) else e.orelse, env)
         if isinstance(e, ast.BinOp) and isinstance(e.op, (ast.Sub, ast.Mult)):
             a, b = self.ev(e.left, env), self.ev(e.right, env)
-            if isinstance(e.op, ast.Sub) and isinstance(a, (int, set)) and isinstance(b, (int, set)):
+            if isinstance(e.op, ast.Sub) and ((isinstance(a, (int, float)) and isinstance(b, (int, float))) or (isinstance(a, (set, frozenset)) and isinstance(b, (set, frozenset)))):
                 return a - b
             if isinstance(e.op, ast.Mult) and isinstance(a, (list, str, int)) and isinstance(b, int):
                 return a * b
@@ -667,6 +702,14 @@ class HostInterp:
             obj = Instance(fn[1], methods)
             if "__init__" in methods:
                 self.call_function(methods["__init__"], [obj] + args, kwargs, {})
+            elif fn[1] in self.record_fields:
+                # a dataclass / record-like class: positional and keyword arguments fill the declared fields
+                fields = self.record_fields[fn[1]]
+                if len(args) > len(fields) or any(k not in fields for k in kwargs):
+                    raise AnalysisError(f"interpretation: cannot construct {fn[1]} from the given arguments")
+                vals = dict(zip(fields, args))
+                vals.update(kwargs)
+                obj.__dict__.update(vals)
             return obj
         if fn is isinstance:
             return isinstance(args[0], args[1])
